@@ -54,13 +54,13 @@ def impl():
     return _F
 
 
-def load(data, fmt):
-    """returns (db, None) or (None, 'ExcType: text')"""
+def load(data, fmt, opts=None):
+    """returns (db, None) or (None, 'ExcType: text'); opts: import options of the reader (encodings)"""
     F = impl()
     old = sys.stdout
     sys.stdout = _NULL
     try:
-        return F.loads(data, fmt)[""], None
+        return F.loads(data, fmt, **(opts or {}))[""], None
     except Exception as e:     # the property: nothing may escape
         import traceback
         tb = traceback.extract_tb(e.__traceback__)
@@ -425,6 +425,37 @@ def dbc_bad_lines(ctx, rng):
     return out + [("typed", l) for l in typed]
 
 
+def undecodable_lines(fmt, profile, ctx):
+    """fourth fault kind: lines containing bytes that are not text in the encoding the file is read with (a lone continuation byte,
+    0xFF/0xFE, a multi-byte character cut short).  Lines are given as latin-1 strings (one character per byte).  Malformed for sure
+    only where the reader decodes with an encoding that can fail: the whole line under the utf8 profiles, the comment text under the
+    mixed DBC profile (dbcImportCommentEncoding)."""
+    out = []
+    if fmt == "dbc":
+        fid = ctx["frame_ids"][0] if ctx["frame_ids"] else 291
+        sid, sname = ctx["sigs"][0] if ctx["sigs"] else (fid, "NoSig")
+        new = ctx["fresh_id"]
+        if profile == "dbc-utf8":
+            out = ["\x80\x80 stray continuation bytes", "\xc2", "BO_ \xff\xfe", "BO_ %d Fr\xff: 8 Vector__XXX" % new,
+                   "BO_ %d\xc3 UndecFrame: 8 Vector__XXX" % new,
+                   ' SG_ UndecSig\x80 : 0|8@1+ (1,0) [0|255] "" Vector__XXX', ' SG_ UndecSig : 0|8@1+ (1,0) [0|255] "\xe2\x82" Vector__XXX',
+                   'BA_ "GenMsgCycleTime" BO_ %d 5\xc3;' % fid, 'VAL_ %d %s 7 "\xe2\x82";' % (sid, sname),
+                   'CM_ BO_ %d "undecodable \xff comment";' % fid, 'CM_ SG_ %d %s "cut \xe6\xb8";' % (sid, sname),
+                   'SG_MUL_VAL_ %d %s %s 1-1\xa0;' % (sid, sname, sname)]
+        elif profile == "dbc-mixed":
+            out = ['CM_ BO_ %d "undecodable \xff comment";' % fid, 'CM_ SG_ %d %s "cut \xe6\xb8";' % (sid, sname)]
+    elif profile == "sym-utf8":
+        out = ["\x80\x80 stray continuation bytes", "\xc2", "[Fr\xff]", "ID=12\xc3h", "DLC=\xff", "Var=UndecSig\x80 unsigned 0,8",
+               "Var=UndecSig unsigned 0,8 /u:\xe2\x82", "Mux=UndecMux\xfe 0,4 9", "CycleTime=1\x80"]
+    for l in out:
+        try:
+            l.encode("latin1").decode("utf8")
+            raise AssertionError(("undecodable line is valid UTF-8", l))
+        except UnicodeDecodeError:
+            pass
+    return [("undecodable", l) for l in out]
+
+
 # ---- SYM (PEAK symbol file, format version 5 as written by canmatrix) ----
 _SYM_CMT = r"(\s*//.*)?$"
 _SYM_WORD = r'(?:"[^"]*"|[^"\s]+)'
@@ -511,9 +542,67 @@ def multiline_comments(db, rng):
                     o.comment = o.comment.replace(" ", "\n", 1)
 
 
-def make_files(rng, n_dbc, n_sym, C):
+# non-ASCII text: characters of 2 bytes (° µ ² Ö ß é Ω) and 3 bytes (€ ℃ 温 度 開) in UTF-8
+NA_UNITS = {"latin1": [u"\u00b0C", u"\u00b5s", u"m\u00b2", u"\u00b0/s"],
+            "utf8": [u"\u00b0C", u"\u00b5s", u"m\u00b2", u"\u03a9", u"\u20ac/h", u"\u2103", u"k\u03a9\u00b7m"]}
+NA_WORDS = {"latin1": [u"Gr\u00f6\u00dfe", u"temp\u00e9rature", u"h\u00e4\u00dflich"],
+            "utf8": [u"Gr\u00f6\u00dfe", u"temp\u00e9rature", u"\u6e29\u5ea6", u"\u0394\u20ac", u"\u958b\u3051\u308b"]}
+PROFILES = {
+    # name: (level of non-comment text, level of comments, dump options, load options)
+    "dbc-utf8": ("utf8", "utf8", dict(dbcExportEncoding="utf8"), dict(dbcImportEncoding="utf8")),
+    "dbc-mixed": ("latin1", "utf8", dict(dbcExportCommentEncoding="utf8"), dict(dbcImportCommentEncoding="utf8")),
+    "sym-utf8": ("utf8", "utf8", dict(symExportEncoding="utf8"), dict(symImportEncoding="utf8")),
+}
+
+
+def non_ascii(db, rng, text_level, comment_level, unit_max=100):
+    """put non-ASCII text into units, comments, value descriptions and string attributes"""
+    for e in db.ecus:
+        if "EcuStrAttr" in e.attributes or rng.random() < 0.5:
+            if "EcuStrAttr" in db.ecu_defines:
+                e.add_attribute("EcuStrAttr", rng.choice(NA_WORDS[text_level]) + " " + rng.choice(NA_WORDS[text_level]))
+        if rng.random() < 0.5:
+            e.add_comment(rng.choice(NA_WORDS[comment_level]) + " ecu")
+    for vt in db.value_tables.values():
+        for k in list(vt):
+            vt[k] = rng.choice(NA_WORDS[text_level])
+    for fr in db.frames:
+        if rng.random() < 0.6:
+            fr.add_comment(((fr.comment + " ") if fr.comment else "") + rng.choice(NA_WORDS[comment_level]) + " " + rng.choice(NA_WORDS[comment_level]))
+        for s in fr.signals:
+            if rng.random() < 0.6:
+                s.unit = rng.choice(NA_UNITS[text_level])[:unit_max]
+            if rng.random() < 0.5:
+                s.add_comment(((s.comment + " ") if s.comment else "") + rng.choice(NA_WORDS[comment_level]))
+            for k in list(s.values):
+                if rng.random() < 0.7:
+                    s.values[k] = rng.choice(NA_WORDS[text_level])
+
+
+def make_files(rng, n_dbc, n_sym, C, n_enc=(3, 2, 3)):
     F = impl()
     out = []
+    for prof, n in zip(("dbc-utf8", "dbc-mixed", "sym-utf8"), n_enc):
+        tl, cl, dopts, lopts = PROFILES[prof]
+        fmt = prof[:3]
+        for k in range(n):
+            if fmt == "dbc":
+                db = matgen.gen_matrix(rng, C, **dict(DBC_FEATURES, n_frames=(1, 3) if k == 0 else (2, 4)))
+                non_ascii(db, rng, tl, cl)
+                multiline_comments(db, rng)
+            else:
+                db = matgen.gen_matrix(rng, C, **dict(SYM_FEATURES, n_frames=(1, 3) if k == 0 else (2, 4)))
+                non_ascii(db, rng, tl, cl, unit_max=16)
+            b = io.BytesIO()
+            F.dump(db, b, fmt, **dopts)
+            data = b.getvalue()
+            try:
+                data.decode("ascii")
+                raise AssertionError("encoding profile file without non-ASCII text")
+            except UnicodeDecodeError:
+                pass
+            out.append(dict(fmt=fmt, name="gen-%s-%d" % (prof, k), data=data, generated=True, opts=lopts, profile=prof,
+                            ecus=[e.name[:32] for e in db.ecus] if fmt == "dbc" else []))
     for k in range(n_dbc):
         db = matgen.gen_matrix(rng, C, **DBC_FEATURES)
         multiline_comments(db, rng)
@@ -530,6 +619,8 @@ def make_files(rng, n_dbc, n_sym, C):
         for p in sorted(glob.glob(os.path.join(core.REPO, "tests", "files", fmt, "*." + fmt))):
             out.append(dict(fmt=fmt, name="sample-" + os.path.basename(p), data=open(p, "rb").read(), generated=False, ecus=[]))
     for f in out:
+        f.setdefault("opts", {})
+        f.setdefault("profile", "default")
         f["lines"] = split_lines(f["data"])
         f["eol"] = b"\r\n" if b"\r\n" in f["data"] else b"\n"
         if f["fmt"] == "dbc":
@@ -623,7 +714,7 @@ def sym_expect(f, full):
 def check_cut(f, exp, cut):
     """returns list of (key_suffix, what, expected, observed)"""
     fmt = f["fmt"]
-    db, err = load(f["data"][:cut], fmt)
+    db, err = load(f["data"][:cut], fmt, f["opts"])
     if err:
         return [("cut-raises", "an exception escapes loads() of the file cut after %d bytes" % cut, "no exception", err)], 0
     if exp is None:
@@ -687,6 +778,8 @@ def stmt_kind(fmt, line, kind):
         if kind == "unknown":
             return "other"
         tok = dbc_first_token(l)
+        if tok not in DBC_KEYWORDS:
+            return "other"
         if tok == "BA_":
             m = re.match(r'BA_ +"([^"]*)', l)
             name = m.group(1) if m else ""
@@ -700,6 +793,8 @@ def stmt_kind(fmt, line, kind):
     if l.startswith("["):
         return "[frame]"
     key = re.split(r"[= ]", l, 1)[0]
+    if key not in SYM_KEYS:
+        return "other"
     if key in ("Var", "Mux") and re.search(r" (-[mh]|/)", l):
         return key + "(switch)"          # the malformed part is a switch behind the mandatory fields
     return key
@@ -714,7 +809,7 @@ def check_inserts(f, st, inserts):
     fmt = f["fmt"]
     ins = [(f["positions"][pi], l.encode("latin1")) for pi, _, l in inserts]
     data2 = insert_lines(f["lines"], ins, f["eol"])
-    db, err = load(data2, fmt)
+    db, err = load(data2, fmt, f["opts"])
     kinds = sorted({k for _, k, _ in inserts})
     out = []
     if err:
@@ -727,9 +822,10 @@ def check_inserts(f, st, inserts):
             out.append(("badline-changes-result", "inserted %s line(s) change what the reader returns" % "/".join(kinds),
                         "normal form of the clean file", [list(map(str, d)) for d in df[:4]]))
     if fmt == "sym":
+        # an undecodable line is recorded wherever it stands: the reader decodes before it looks at the section
         want = st["nerr"] + sum(1 for pi, k, l in inserts
-                                if k in ("truncated", "wrongtype") and f["sections"][pi] == "frames"
-                                and not l.startswith(SYM_LOAD_ERROR_EXEMPT))
+                                if k == "undecodable" or (k in ("truncated", "wrongtype") and f["sections"][pi] == "frames"
+                                                          and not l.startswith(SYM_LOAD_ERROR_EXEMPT)))
         if len(db.load_errors) != want:
             out.append(("badline-not-recorded", "load_errors does not hold one entry per statement that failed to parse", want,
                         len(db.load_errors)))
@@ -745,7 +841,7 @@ _CACHE = {}
 def file_state(fi):
     if fi not in _CACHE:
         f = FILES[fi]
-        db, err = load(f["data"], f["fmt"])
+        db, err = load(f["data"], f["fmt"], f["opts"])
         st = dict(err=err)
         if db is not None:
             st["nf"] = nf_of(db)
@@ -837,9 +933,9 @@ def plan_file(fi, f, rng, thorough):
         bad = []
         for _ in range(3 if thorough else 2):      # several draws so that different existing objects are referred to
             bad += dbc_bad_lines(ctx, rng)
-        bad = list(dict.fromkeys(bad))
+        bad = list(dict.fromkeys(bad)) + undecodable_lines("dbc", f["profile"], ctx)
     else:
-        bad = sym_bad_lines({}, rng)
+        bad = sym_bad_lines({}, rng) + undecodable_lines("sym", f["profile"], {})
     f["nbad"] = len(bad)
     singles = []
     if thorough:
@@ -930,7 +1026,10 @@ def run(chk):
     thorough = chk.tier == "thorough"
     chk.rule = ("files: canmatrix's own DBC output (all content classes of matgen incl. multi-line comments, extended multiplexing, long "
                 "names, free signals, environment variables) and SYM output (what sym.py dump expresses) for seeded matrices, plus "
-                "tests/files/dbc/*.dbc and tests/files/sym/*.sym.  Faults: malformed lines (unknown keyword / truncated / wrong field type; "
+                "tests/files/dbc/*.dbc and tests/files/sym/*.sym; additionally files with non-ASCII text (2- and 3-byte UTF-8 characters in "
+                "units, comments, value descriptions, string attributes) written and read with dbcExport/ImportEncoding=utf8, with "
+                "dbcExport/ImportCommentEncoding=utf8 over iso-8859-1, and symExport/ImportEncoding=utf8 (every byte cut, so also the cuts "
+                "inside a multi-byte character; fourth fault kind there: lines with bytes that are not text in the import encoding).  Faults: malformed lines (unknown keyword / truncated / wrong field type; "
                 "each rejected by an independent strict line grammar, see dbc_bad_lines/sym_bad_lines) inserted at every admissible "
                 "position (DBC: not inside a multi-line CM_ and not directly before an SG_ line; SYM: not inside an enum(...) continuation), "
                 "multisets of 2..4, and every byte cut.  A line 'lies completely before the cut' when all bytes of its content (line "
@@ -943,11 +1042,11 @@ def run(chk):
     C = cm.canmatrix
     rng = chk.rng
     witnesses(chk)
-    FILES = make_files(rng, 60 if thorough else 8, 60 if thorough else 8, C)
+    FILES = make_files(rng, 60 if thorough else 8, 60 if thorough else 8, C, (15, 10, 15) if thorough else (3, 2, 3))
     items = []
     for fi, f in enumerate(FILES):
         st = file_state(fi)
-        chk.count("files-" + f["fmt"] + ("-generated" if f["generated"] else "-sample"))
+        chk.count("files-" + f["fmt"] + ("-generated" if f["generated"] else "-sample") + ("" if f["profile"] == "default" else "-" + f["profile"]))
         if st["err"]:
             chk.violation("%s-clean-raises" % f["fmt"], "a well-formed file does not load", dict(file=f["name"], file_b64=b64(f["data"])),
                           "no exception", st["err"])
